@@ -64,22 +64,14 @@ static void history(FILE* f, const vector<string>& contents, const vector<int>& 
     }
   for (size_t i = 0; i < h.size(); ++i)
     for (size_t j = 0; j < h.size(); ++j)
-      {
-	fprintf(f, "{\"e\":\"Cmp\",\"i\":%zu,\"j\":%zu,\"op\":\"eq\",\"res\":%s}\n", i + 1, j + 1, B(h[i] == h[j]));
-	fprintf(f, "{\"e\":\"Cmp\",\"i\":%zu,\"j\":%zu,\"op\":\"ne\",\"res\":%s}\n", i + 1, j + 1, B(h[i] != h[j]));
-	fprintf(f, "{\"e\":\"Cmp\",\"i\":%zu,\"j\":%zu,\"op\":\"lt\",\"res\":%s}\n", i + 1, j + 1, B(h[i] < h[j]));
-      }
+      fprintf(f, "{\"e\":\"Cmp\",\"i\":%zu,\"j\":%zu,\"eq\":%s,\"ne\":%s,\"lt\":%s}\n", i + 1, j + 1,
+	      B(h[i] == h[j]), B(h[i] != h[j]), B(h[i] < h[j]));
   for (size_t i = 0; i < h.size(); ++i)
     for (size_t c = 0; c < contents.size() && c < 8; ++c)	// (random histories: the first 8 contents only)
       {
 	const string& s = contents[c];
-	const char* ops[] = {"eq", "ne", "req", "rne"};
-	bool res[] = {h[i] == s, h[i] != s, s == h[i], s != h[i]};
-	for (int k = 0; k < 4; ++k)
-	  {
-	    fprintf(f, "{\"e\":\"CmpStr\",\"i\":%zu,\"s\":", i + 1); emit_content(f, s);
-	    fprintf(f, ",\"op\":\"%s\",\"res\":%s}\n", ops[k], B(res[k]));
-	  }
+	fprintf(f, "{\"e\":\"CmpStr\",\"i\":%zu,\"s\":", i + 1); emit_content(f, s);
+	fprintf(f, ",\"eq\":%s,\"ne\":%s,\"req\":%s,\"rne\":%s}\n", B(h[i] == s), B(h[i] != s), B(s == h[i]), B(s != h[i]));
       }
   abigail::hash_interned_string hasher;
   abigail::interned_string_set_type set;
